@@ -52,6 +52,8 @@ pub struct ChildCase {
     pub decoy: bool,
     /// see FlatOpts::update
     pub update: bool,
+    /// see FlatOpts::existing_only
+    pub existing_only: bool,
     pub tags: Vec<String>,
 }
 
@@ -67,10 +69,13 @@ pub struct FlatOpts {
     pub update: bool,
     /// plain members only
     pub plain_only: bool,
+    /// only From and IntoExisting are requested and there is NO #[child_parents] (README: those kinds need only #[child]);
+    /// struct-level ghosts addressed by child path must still be written by into_existing (seed C03-10)
+    pub existing_only: bool,
 }
 
 impl FlatOpts {
-    pub const DEF: FlatOpts = FlatOpts { max_members: 3, max_ghosts: 1, max_depth: 2, positional: false, fixed_nodes: None, update: false, plain_only: false };
+    pub const DEF: FlatOpts = FlatOpts { max_members: 3, max_ghosts: 1, max_depth: 2, positional: false, fixed_nodes: None, update: false, plain_only: false, existing_only: false };
 }
 
 pub fn gen_child(ctx: &mut Ctx, o: &FlatOpts) -> Option<ChildCase> {
@@ -142,11 +147,14 @@ pub fn gen_child(ctx: &mut Ctx, o: &FlatOpts) -> Option<ChildCase> {
     if ghosts.iter().any(|g| !g.0.is_empty() && !members.iter().any(|m| m.node == g.0)) {
         tags.push("ghost-only-node".into());
     }
-    let decoy = !o.plain_only && ctx.flag();
+    let decoy = !o.plain_only && !o.existing_only && ctx.flag();
     if decoy {
         tags.push("child_parents-decoy".into());
     }
-    let mut case = ChildCase { nodes, members, ghosts, positional: o.positional, decoy, update: o.update && !o.positional, tags: vec![] };
+    let mut case = ChildCase { nodes, members, ghosts, positional: o.positional, decoy, update: o.update && !o.positional, existing_only: o.existing_only && !o.positional, tags: vec![] };
+    if case.existing_only {
+        tags.push("existing-only".into());
+    }
     if case.update {
         tags.push("update".into());
     }
@@ -249,10 +257,11 @@ impl ChildCase {
         }
         let mut it = Item::new_struct(name, if self.positional { Shape::Tuple } else { Shape::Named }, fields);
         let upd = if self.update { "| ..Default::default()" } else { "" };
-        it.attrs.push(Instr::new("map", None, &format!("T{}", upd)));
+        let m = if self.existing_only { "from" } else { "map" };
+        it.attrs.push(Instr::new(m, None, &format!("T{}", upd)));
         it.attrs.push(Instr::new("into_existing", None, "T"));
         if both {
-            it.attrs.push(Instr::new("try_map", None, &format!("Tf, Er{}", upd)));
+            it.attrs.push(Instr::new(&format!("try_{}", m), None, &format!("Tf, Er{}", upd)));
             it.attrs.push(Instr::new("try_into_existing", None, "Tf, Er"));
         }
         let real = self.nodes.iter().map(|n| format!("{}: {}", self.path_text(n), ty_of(n))).collect::<Vec<_>>().join(", ");
@@ -262,7 +271,7 @@ impl ChildCase {
             if both {
                 it.attrs.push(Instr::new("child_parents", Some("Tf"), &real));
             }
-        } else {
+        } else if !self.existing_only {
             it.attrs.push(Instr::new("child_parents", None, &real));
         }
         if !self.ghosts.is_empty() {
@@ -383,10 +392,14 @@ impl ChildCase {
                 let ete = self.node_literal_u("", tn, &|m: &FMem| sv(m) + if m.leaf == Leaf::Expr { m.marker } else { 0 }, &|g| g.2, 900_500);
                 let pre = self.node_literal_u("", tn, &|m: &FMem| 900_000 + m.orig as i64, &|g| 900_100 + g.2, 900_500);
                 if fallible {
-                    let _ = writeln!(o, "  {{ let s = {slit}; r.eq(\"{f}owned_into/{a}\", &<S as TryInto<{tn}>>::try_into(s.clone()), &{e}); r.eq(\"{f}ref_into/{a}\", &<&S as TryInto<{tn}>>::try_into(&s), &{e}); }}", e = wrap(et.clone()));
+                    if !self.existing_only {
+                        let _ = writeln!(o, "  {{ let s = {slit}; r.eq(\"{f}owned_into/{a}\", &<S as TryInto<{tn}>>::try_into(s.clone()), &{e}); r.eq(\"{f}ref_into/{a}\", &<&S as TryInto<{tn}>>::try_into(&s), &{e}); }}", e = wrap(et.clone()));
+                    }
                     let _ = writeln!(o, "  {{ let s = {slit}; let mut o1 = {pre}; let r1 = <S as TryIntoExisting<{tn}>>::try_into_existing(s.clone(), &mut o1); r.eq(\"{f}owned_into_existing/{a}\", &r1.map(|_| o1), &{e}); let mut o2 = {pre}; let r2 = <&S as TryIntoExisting<{tn}>>::try_into_existing(&s, &mut o2); r.eq(\"{f}ref_into_existing/{a}\", &r2.map(|_| o2), &{e}); }}", e = wrap(ete.clone()));
                 } else {
-                    let _ = writeln!(o, "  {{ let s = {slit}; r.eq(\"owned_into/{a}\", &<S as Into<{tn}>>::into(s.clone()), &{e}); r.eq(\"ref_into/{a}\", &<&S as Into<{tn}>>::into(&s), &{e}); }}", e = et);
+                    if !self.existing_only {
+                        let _ = writeln!(o, "  {{ let s = {slit}; r.eq(\"owned_into/{a}\", &<S as Into<{tn}>>::into(s.clone()), &{e}); r.eq(\"ref_into/{a}\", &<&S as Into<{tn}>>::into(&s), &{e}); }}", e = et);
+                    }
                     let _ = writeln!(o, "  {{ let s = {slit}; let mut o1 = {pre}; <S as IntoExisting<{tn}>>::into_existing(s.clone(), &mut o1); r.eq(\"owned_into_existing/{a}\", &o1, &{e}); let mut o2 = {pre}; <&S as IntoExisting<{tn}>>::into_existing(&s, &mut o2); r.eq(\"ref_into_existing/{a}\", &o2, &{e}); }}", e = ete);
                 }
             }
